@@ -1,7 +1,7 @@
 SPECIFICATION Spec
 CONSTANTS
   NConn = 3
-  MaxLen = 4
+  MaxLen = 3
   ReplayLen = 2
   Sim = FALSE
 INVARIANTS AuthGate Export
